@@ -176,9 +176,97 @@ fn arith_case(out: &mut Out, a: (i64, i64), b: (i64, i64), d: Duration) {
     });
 }
 
+fn mk_monotonic(ts: TimeSpec) -> MonotonicInstant {
+    // same one-field layout as Instant (checked through as_instant() below)
+    let m = unsafe { core::mem::transmute::<TimeSpec, MonotonicInstant>(ts) };
+    let i = m.as_instant();
+    let back: &TimeSpec = i.as_ref();
+    assert!(back.seconds() == ts.seconds() && back.nanoseconds() == ts.nanoseconds(), "harness: MonotonicInstant layout assumption broken");
+    m
+}
+
+/// (s, ns) + off nanoseconds (off may be negative), computed by the harness, not by the code under test
+fn shift(t: (i64, i64), off: i128) -> Option<(i64, i64)> {
+    let tot = i128::from(t.0) * i128::from(NPS) + i128::from(t.1) + off;
+    if tot < 0 {
+        return None;
+    }
+    Some(((tot / i128::from(NPS)) as i64, (tot % i128::from(NPS)) as i64))
+}
+
+/// Every "difference against now" entry point on instants a little / a lot ahead of and behind the
+/// clock: ahead or behind by 1 ns, 1 us, 400 ms, 999 999 999 ns, 1 s, 1 h.  The call is bracketed by
+/// two readings of the same clock; the judge demands None when the instant lies after the later
+/// reading, Some(d) inside the bracket when before the earlier one.  For "ahead by 400 ms / 999 999 999 ns"
+/// the measurement is repeated until instant and clock share the SAME seconds value (and, for
+/// contrast, until they do not), so that only the nanoseconds decide.
+fn near_now(out: &mut Out) {
+    const OFFS: [i128; 6] = [1, 1_000, 400_000_000, 999_999_999, 1_000_000_000, 3_600_000_000_000];
+    for &off in &OFFS {
+        for sign in [1i128, -1] {
+            for want_same_second in [true, false] {
+                // Instant
+                for attempt in 0..60 {
+                    let before: TimeSpec = *Instant::now().as_ref();
+                    let b = (before.seconds(), before.nanoseconds());
+                    let Some(a) = shift(b, sign * off) else { break };
+                    let same = a.0 == b.0;
+                    if off < NPS as i128 && sign == 1 && off >= 400_000_000 && same != want_same_second && attempt < 59 {
+                        std::thread::sleep(std::time::Duration::from_millis(37));
+                        continue;
+                    }
+                    let ia = mk_instant(TimeSpec::new(a.0, a.1));
+                    let el = guarded(|| ia.elapsed());
+                    let after: TimeSpec = *Instant::now().as_ref();
+                    out.ev(&json!({"ty":"instant","op":"elapsed","a":tv(a.0,a.1),"b":tv(b.0,b.1),
+                        "c":tv(after.seconds(),after.nanoseconds()),"out": out_dur(el),"near":true}));
+                    break;
+                }
+                // SystemTime (real-time clock): the sample is dropped if that clock was stepped meanwhile
+                // (its bracket must be as long as the monotonic clock's, within 1 ms)
+                for attempt in 0..60 {
+                    let m0 = mono();
+                    let rb = ts_of_system(SystemTime::now());
+                    let b = (rb.seconds(), rb.nanoseconds());
+                    let Some(a) = shift(b, sign * off) else { break };
+                    let same = a.0 == b.0;
+                    if off < NPS as i128 && sign == 1 && off >= 400_000_000 && same != want_same_second && attempt < 59 {
+                        std::thread::sleep(std::time::Duration::from_millis(37));
+                        continue;
+                    }
+                    let sa = SystemTime::from(TimeSpec::new(a.0, a.1));
+                    let el = guarded(|| sa.elapsed());
+                    let rc = ts_of_system(SystemTime::now());
+                    let m1 = mono();
+                    let real = (i128::from(rc.seconds()) - i128::from(b.0)) * i128::from(NPS) + i128::from(rc.nanoseconds()) - i128::from(b.1);
+                    let mon = (i128::from(m1.0) - i128::from(m0.0)) * i128::from(NPS) + i128::from(m1.1) - i128::from(m0.1);
+                    if real < 0 || (real - mon).abs() > 1_000_000 {
+                        continue; // stepped clock: not a usable bracket
+                    }
+                    out.ev(&json!({"ty":"system","op":"elapsed","a":tv(a.0,a.1),"b":tv(b.0,b.1),
+                        "c":tv(rc.seconds(),rc.nanoseconds()),"out": out_dur(el),"near":true}));
+                    break;
+                }
+                // MonotonicInstant::elapsed returns a Duration; safe code only ever holds past readings
+                if sign == -1 && want_same_second {
+                    let b = mono();
+                    if let Some(a) = shift(b, -off) {
+                        let m = mk_monotonic(TimeSpec::new(a.0, a.1));
+                        let el = guarded(|| Some(m.elapsed()));
+                        let after = mono();
+                        out.ev(&json!({"ty":"monotonic","op":"elapsed","a":tv(a.0,a.1),"b":tv(b.0,b.1),
+                            "c":tv(after.0,after.1),"out": out_dur(el),"near":true}));
+                    }
+                }
+            }
+        }
+    }
+}
+
 fn arith(n: u64, seed: u64, full_grid: bool) {
     selfcheck();
     let mut out = Out::new();
+    near_now(&mut out);
     let mut g = Gen { rng: Rng::new(seed) };
     // 1. the boundary grid: every combination of anchor seconds x anchor nanoseconds
     let secs_full: [i64; 10] = [0, 1, 2, (1 << 32) - 1, 1 << 32, i64::MAX - 2, i64::MAX - 1, i64::MAX, 1 << 62, 1_000_000_000];
